@@ -1,6 +1,7 @@
 //! C10 — protocol identification is decided by leading bytes against the signature set.
 
 use crate::corpus::*;
+use crate::wire::{Flow, Ip};
 use crate::driver::{Cfg, Cmd, Driver};
 use crate::engine::{self, Item, Report, RunOpts, Sink, Violation};
 use crate::shadow::{self, EdgeClass, Product, END};
@@ -490,6 +491,78 @@ pub fn run(rep: &mut Report, thorough: bool) {
             }
         }
         rep.stage("many-connections", "signature cut across two segments with 66000 other connections identified in between: same decision", 66002, t0);
+    }
+    // the decision does not depend on addresses: two connections from one client endpoint to two
+    // destination addresses (same ports), each carrying another protocol
+    {
+        let t0 = std::time::Instant::now();
+        let pairs6: Vec<(Ip, Ip)> = vec![(srv6(), srv6b()), (Ip::parse("2001:db8:0:2::a"), Ip::parse("2001:db8:0:2::b")), (Ip::parse("2001:db8::1"), Ip::parse("2001:db8:0:1::1"))];
+        let pairs4: Vec<(Ip, Ip)> = vec![(srv4(), srv4b()), (Ip::V4([10, 0, 0, 1]), Ip::V4([10, 0, 1, 1]))];
+        let firsts: Vec<&Payload> = pls.iter().filter(|p| ["http-get", "ssh-2", "smb2-negotiate", "rpc-tcp-getport"].contains(&p.name)).collect();
+        let mut scen2: Vec<(Flow, Flow, usize, usize)> = Vec::new();
+        for (a, b) in pairs6.iter().chain(pairs4.iter()) {
+            for x in 0..firsts.len() {
+                for y in 0..firsts.len() {
+                    if x != y {
+                        let mut fa = flow(!a.is_v4(), 40000, 80);
+                        fa.sip = *a;
+                        let mut fb = fa.clone();
+                        fb.sip = *b;
+                        scen2.push((fa, fb, x, y));
+                    }
+                }
+            }
+        }
+        let all: Vec<Flow> = scen2.iter().flat_map(|s| [s.0.clone(), s.1.clone()]).collect();
+        let ck = learn_cookies(&cfg, &all).unwrap_or_default();
+        let opts = RunOpts::new("sibling-destinations").stateful().chunk(8).no_monitor();
+        let cfgs = cfg.clone();
+        engine::run(
+            &cfg,
+            scen2.len() as u64,
+            &opts,
+            |i| {
+                let (fa, fb, x, y) = &scen2[i as usize];
+                let ca = ck.get(&key_of(fa)).copied().unwrap_or(0).wrapping_add(1);
+                let cb = ck.get(&key_of(fb)).copied().unwrap_or(0).wrapping_add(1);
+                vec![Cmd::Frame(fa.tcp(1000, ca, crate::wire::F_PSH | crate::wire::F_ACK, &firsts[*x].bytes)), Cmd::Frame(fb.tcp(1000, cb, crate::wire::F_PSH | crate::wire::F_ACK, &firsts[*y].bytes))]
+            },
+            |it: &Item, sk: &mut Sink| {
+                sk.count("frames", 2);
+                let (fa, fb, _x, y) = &scen2[it.idx as usize];
+                if ck.get(&key_of(fa)) == ck.get(&key_of(fb)) {
+                    // equal cookies: the listed aliasing finding (or a new pair, reported by C08 / C09)
+                    sk.class("sibling-destinations:equal-cookies");
+                }
+                let want = match crate::sig::dispatch(&sigs, &firsts[*y].bytes, false) {
+                    crate::sig::Dispatch::Matched(p, _, _) => match p {
+                        crate::sig::Proto::Http => "http",
+                        crate::sig::Proto::Ssh => "ssh",
+                        crate::sig::Proto::Ghost => "ghost",
+                        crate::sig::Proto::Stun => "stun",
+                        crate::sig::Proto::RpcTcp => "rpc-tcp",
+                        crate::sig::Proto::RpcUdp => "rpc-udp",
+                        crate::sig::Proto::Smb1 | crate::sig::Proto::Smb2 => "smb",
+                    },
+                    _ => return,
+                };
+                let app = it.outs[2].reply.as_deref().and_then(crate::mask::app_payload).map(|(_, p)| p).unwrap_or_default();
+                let got = if app.is_empty() { "nobody" } else { responder_of(&app) };
+                if got != want {
+                    sk.violation(Violation {
+                        prop: "C10".into(),
+                        key: format!("decision-depends-on-addresses:{}-instead-of:{}", got, want),
+                        what: format!("a connection to {} carrying '{}' is answered by {} after a connection from the same client endpoint to {} carried '{}'", fb.sip, firsts[*y].name, got, fa.sip, firsts[scen2[it.idx as usize].2].name),
+                        cfg: cfgs.clone(),
+                        cmds: it.cmds.to_vec(),
+                        idx: it.idx,
+                        stage: "sibling-destinations".into(),
+                    });
+                }
+            },
+            &mut rep.sink,
+        );
+        rep.stage("sibling-destinations", "5 pairs of destination addresses (other address, same /64, same /24) x ordered pairs of 4 protocols: two connections from one client endpoint, the second one answered by the responder of ITS leading bytes", scen2.len() as u64, t0);
     }
     // near misses at the observable level: datagrams / first segments whose leading bytes complete
     // NO published signature (one literal byte of the signature altered; or, for the end-anchored
